@@ -86,6 +86,7 @@ type Exec struct {
 	initing map[*ssa.Package]bool
 	nextObj int
 	steps   int
+	hangBound int
 	depth   int
 	lim     Limits
 	strObjs map[string]*Object
@@ -1727,6 +1728,11 @@ func (x *Exec) call(fn *ssa.Function, args []Value, env []Value) Value {
 		fr.envMerged = nil
 		for _, ins := range b.Instrs[nphi:] {
 			x.steps++
+			if x.hangBound > 0 && x.steps > x.hangBound {
+				x.hangBound = 0
+				x.check(x.st.False, "hang", "the operation does not finish within the stated instruction bound (non-termination / runaway loop)")
+				x.abort(abEnd, "hang bound")
+			}
 			if x.steps > x.lim.MaxSteps {
 				x.abort(abBudget, "step budget exhausted in %s", fn)
 			}
